@@ -249,7 +249,9 @@ func (c *Ctx) term(v ssa.Value, d int) string {
 	return "?" + v.Name()
 }
 
-// localStore finds, for a load from a local Alloc, the unique store that reaches it within the same block.
+// localStore finds, for a load from a local Alloc, the unique store that reaches it: the last store before the load
+// in its block, else the store that reaches the end of every predecessor (the same stored value on all of them). Only
+// for variables whose address is used by nothing but plain loads and stores.
 func localStore(load *ssa.UnOp) ssa.Value {
 	al, ok := load.X.(*ssa.Alloc)
 	if !ok {
@@ -268,7 +270,58 @@ func localStore(load *ssa.UnOp) ssa.Value {
 			return st.Val
 		}
 	}
-	return nil
+	if al.Referrers() == nil {
+		return nil
+	}
+	for _, r := range *al.Referrers() {
+		switch x := r.(type) {
+		case *ssa.Store:
+			if x.Addr != ssa.Value(al) {
+				return nil // the address itself is stored somewhere
+			}
+		case *ssa.UnOp:
+		case *ssa.DebugRef:
+		default:
+			return nil // handed to a call or a closure
+		}
+	}
+	seen := map[*ssa.BasicBlock]bool{b: true}
+	var out func(bb *ssa.BasicBlock, d int) ssa.Value
+	out = func(bb *ssa.BasicBlock, d int) ssa.Value {
+		if d > 12 || seen[bb] {
+			return nil
+		}
+		seen[bb] = true
+		for i := len(bb.Instrs) - 1; i >= 0; i-- {
+			if st, ok := bb.Instrs[i].(*ssa.Store); ok && st.Addr == ssa.Value(al) {
+				return st.Val
+			}
+		}
+		if len(bb.Preds) == 0 {
+			return nil
+		}
+		var v ssa.Value
+		for _, p := range bb.Preds {
+			pv := out(p, d+1)
+			if pv == nil || (v != nil && pv != v) {
+				return nil
+			}
+			v = pv
+		}
+		return v
+	}
+	var v ssa.Value
+	if len(b.Preds) == 0 {
+		return nil
+	}
+	for _, p := range b.Preds {
+		pv := out(p, 0)
+		if pv == nil || (v != nil && pv != v) {
+			return nil
+		}
+		v = pv
+	}
+	return v
 }
 
 // statusIndex returns the index of the status result of a signature: the last error result, else the
